@@ -18,9 +18,9 @@ PROVED, REFUTED, UNDECIDED, ERROR = "PROVED", "REFUTED", "UNDECIDED", "ERROR"
 class Refuted(Exception):
     """raised by an obligation body for rule violations with an exact syntactic witness."""
 
-    def __init__(s, what, construct=None, detail=None):
+    def __init__(s, what, construct=None, detail=None, sigdata=None):
         super().__init__(what)
-        s.what, s.construct, s.detail = what, construct, detail
+        s.what, s.construct, s.detail, s.sigdata = what, construct, detail, sigdata
 
 
 class Ob:
@@ -41,6 +41,33 @@ def _sig(text):
     return t.strip()
 
 
+def _heads_of(netstr):
+    import re
+    return sorted(re.sub(r"#\d+", "#", h) for h in re.findall(r"([^\s\[\]]+)\[[^\]]*\]", netstr))
+
+
+def _canon(x):
+    """order- and index-name-insensitive form of a list of normal-form differences."""
+    if isinstance(x, (list, tuple)):
+        if x and all(isinstance(y, str) for y in x) and any(y in ("coef", "only_impl", "only_spec") for y in x):
+            out = []
+            for y in x:
+                if "[" in y and "]" in y:
+                    out.append("heads:" + ",".join(_heads_of(y)))
+                else:
+                    out.append(y)
+            return "(" + "|".join(out) + ")"
+        items = sorted(_canon(y) for y in x)
+        return "[" + ";".join(items) + "]"
+    if isinstance(x, dict):
+        return "{" + ";".join(f"{k}={_canon(v)}" for k, v in sorted(x.items()) if k not in ("at", "call_stack", "more")) + "}"
+    return _sig(str(x))
+
+
+def finding_sig(detail):
+    return _canon(detail)
+
+
 def run_one(ob):
     """returns dict(key, verdict, rule, anchor, detail, sig, wall_s, funcs)"""
     t0 = time.time()
@@ -59,7 +86,7 @@ def run_one(ob):
         else:
             out["verdict"] = REFUTED
             out["detail"] = r if isinstance(r, (list, dict, str)) else repr(r)
-            out["sig"] = _sig(json.dumps(out["detail"], default=str, sort_keys=True))
+            out["sig"] = finding_sig(out["detail"])
     except AbstractError as e:
         out["verdict"] = REFUTED
         mod, fn, line = e.site
@@ -83,7 +110,7 @@ def run_one(ob):
         if e.construct:
             out["construct"] = e.construct
         out["detail"] = dict(kind="rule", message=e.what, more=e.detail)
-        out["sig"] = _sig(f"rule|{e.what}")
+        out["sig"] = finding_sig(e.sigdata) if getattr(e, "sigdata", None) is not None else _sig(f"rule|{e.what}")
     except Undecided as e:
         out["verdict"] = UNDECIDED
         out["detail"] = str(e)
